@@ -244,6 +244,9 @@ def run_structural(ctx):
 
 def run_modules(mods, opts, jobs=16):
     ctx, loaded, tasks, nlem = plan(mods)
+    vm = opts.get("verify_modules")
+    if vm:
+        tasks = [t for t in tasks if ctx.contracts[t[0]].origin in vm]
     only = opts.get("only_tasks")
     if only:
         tasks = [t for t in tasks if t[0] in only or f"{t[0]}@{t[1]}" in only]
